@@ -36,12 +36,18 @@ def configOf (j : Json) : Config :=
     sqlExplicit := jBool j "sql", dummy := jBool j "dummy", irmaPbdf := jStr j "irma" == "pbdf",
     movedKey := jStr j "legacy" != "", cliFlags := if cli == "" then [] else [bytesOf flagName] }
 
-def showOutcome (op : String) : Outcome → String
+def iamAssigned : Bool := Nuts.Facts.C20.authStrictModeAssignments == ["config.Strictmode"]
+def callTime : Bool := Nuts.Facts.C20.checkRedirectReadsGlobalAtCallTime
+
+def showOutcome (op : String) (cfg : Config) : Outcome → String
   | .refuse e r => s!"{op} refuse:{e}:{r}"
   | .ok r =>
     let d := if r.dummyMeans then "registered" else "absent"
     let c := if r.unlistedRemoteContexts then "attempted" else "refused"
-    s!"{op} ok dummy={d} remotectx={c} clientstrict={r.clientStrict}"
+    let e := if earlyClientFollowsHttp callTime cfg then "followed" else "refused"
+    let h := iamEndpoint tlds l2s iamAssigned cfg (bytesOf "http://c.verif.test:1003/meta")
+    let i := iamEndpoint tlds l2s iamAssigned cfg (bytesOf "https://127.0.0.1:1001/meta")
+    s!"{op} ok dummy={d} remotectx={c} clientstrict={r.clientStrict} earlyclient={e} iamhttp={h} iamip={i}"
 
 def step (st : Unit) (j : Json) : Unit × List String :=
   let line : String :=
@@ -60,7 +66,13 @@ def step (st : Unit) (j : Json) : Unit × List String :=
       match load (configOf j) with
       | some (e, r) => s!"load refuse:{e}:{r}"
       | none => "load ok"
-    | "sys" => showOutcome "sys" (start tlds l2s (configOf j))
+    | "sys" => showOutcome "sys" (configOf j) (start tlds l2s (configOf j))
+    | "flags" =>
+      let names := (jStrs j "args").map fun a => bytesOf (a.splitOn "=").head!
+      let c : Config := { (default : Config) with cliFlags := names }
+      match load c with
+      | some (_, r) => "flags refuse:" ++ r
+      | none => "flags ok"
     | "do" =>
       let locs := (jStrs j "locs").toArray
       let srv : Nat → Req → Option Resp := fun hop _ =>
